@@ -8,7 +8,7 @@
      check_sound_w    : check_program_w ws p = true -> every reference resolves or is excused by a waiver
      failing_refs_spec: In lr (failing_refs p) <-> In lr (refs p) /\ ~ Resolves p lr
      failing_idx_nil  : failing_idx p = [] <-> check_program p = true *)
-From Coq Require Import List String Bool Arith Lia.
+From Coq Require Import List String Bool Arith ZArith Lia.
 From Knee Require Import Model.Linking.
 Import ListNotations.
 Local Open Scope string_scope.
@@ -525,3 +525,37 @@ Proof.
   rewrite <- (filter_enumerate_nil _ (check_lref p) (refs p) 0).
   destruct (filter _ _); simpl; split; intros H; try reflexivity; discriminate.
 Qed.
+
+(* ---------------------------------------------------------------- dynamic part: what the judge's predicate says *)
+
+Lemma zlist_eqb_eq : forall a b, zlist_eqb a b = true <-> a = b.
+Proof.
+  induction a as [|x a IH]; intros [|y b]; simpl; try (split; [discriminate | discriminate]); try (split; reflexivity).
+  rewrite andb_true_iff, Z.eqb_eq, IH. split.
+  - intros [-> ->]. reflexivity.
+  - intros H. injection H as -> ->. split; reflexivity.
+Qed.
+
+Lemma dyn_first_bad_spec : forall r0 runs,
+  dyn_first_bad r0 runs = 0 <-> Forall (fun tur => snd (fst tur) = true /\ snd tur = r0) runs.
+Proof.
+  intros r0 runs. induction runs as [|[[t u] r] runs IH]; simpl.
+  - split; [constructor | reflexivity].
+  - destruct u; simpl.
+    + destruct (zlist_eqb r r0) eqn:E; simpl.
+      * apply zlist_eqb_eq in E. subst r. rewrite IH. split.
+        -- intros H. constructor; [split; reflexivity | exact H].
+        -- intros H. inversion H; assumption.
+      * split.
+        -- destruct (Nat.eqb t 0) eqn:T; [discriminate|]. apply Nat.eqb_neq in T. intros H. lia.
+        -- intros H. apply Forall_inv in H. simpl in H. destruct H as [_ Hr]. subst r.
+           assert (zlist_eqb r0 r0 = true) by (apply zlist_eqb_eq; reflexivity). congruence.
+    + split; [intros H; lia|]. intros H. apply Forall_inv in H. simpl in H. destruct H as [Hu _]. discriminate.
+Qed.
+
+(* the dynamic judge accepts a case iff no call changed an argument or a default AND every re-presentation
+   of the input produced the bit-identical result encoding of the base call *)
+Theorem dyn_holds_spec : forall t0 u0 r0 rest,
+  dyn_holds ((t0, u0, r0) :: rest) = 0 <->
+  Forall (fun tur => snd (fst tur) = true /\ snd tur = r0) ((t0, u0, r0) :: rest).
+Proof. intros t0 u0 r0 rest. unfold dyn_holds. apply dyn_first_bad_spec. Qed.
